@@ -48,7 +48,9 @@ a_flowLabel = _flow(FlowSpec('farming', ['label', 'wrapper'], {
     self_name=None, closure=True))
 HARVEST_CALLS = {'self.runner.run_combos': ('farming', ['Runner', 'run_combos']),
                  'self.runner.run_cases': ('farming', ['Runner', 'run_cases']),
-                 'self.add_ds': ('farming', ['Harvester', 'add_ds']), 'self.add_df': ('farming', ['Sampler', 'add_df'])}
+                 'self.add_ds': ('farming', ['Harvester', 'add_ds']), 'self.add_df': ('farming', ['Sampler', 'add_df']),
+                 # a farmer that went round its runner and called the labelling functions itself would show up as such
+                 'combo_runner_to_ds': T_CRDS, 'case_runner_to_ds': T_CSDS}
 a_flowHarvestCombos = _flow(FlowSpec('farming', ['Harvester', 'harvest_combos'], HARVEST_CALLS))
 a_flowHarvestCases = _flow(FlowSpec('farming', ['Harvester', 'harvest_cases'], HARVEST_CALLS))
 a_flowGenCases = _flow(FlowSpec('farming', ['Sampler', 'gen_cases_fnargs'], {}))
